@@ -7,7 +7,7 @@
 EXTENDS Handover, Json, IOUtils, TLC, TLCExt
 Traces == JsonDeserialize(IOEnv.TRACE_FILE)
 VARIABLES tid, l, done, follows
-tv == << served, lastValid, buffer, disk, bcast, net, miner, tid, l, done, follows >>
+tv == << served, lastValid, buffer, disk, bcast, net, miner, sqlerr, tid, l, done, follows >>
 Tr == Traces[tid]
 Emit(c) == PrintT(ToJson(<< "FINDING", Tr.id, l, c >>))
 O == Tr.out
@@ -20,17 +20,21 @@ Clauses ==
   \cup (IF Rejected /\ MinerOn /\ follows /\ net.pc = "done" /\ net.quiet /\ ~O.b_served
         THEN {"C09:chain_state_held_before_a_rejected_block_is_not_left_as_it_was"} ELSE {})
   \cup (IF XValidated /\ XValid /\ ~O.x_on_disk THEN {"C09:accepted_block_not_written_to_the_store"} ELSE {})
+  \* the miner took its snapshot after the delivered block had been published (its found block is a child of X): X was the new head when it was
+  \* accepted, whatever has been published on top of it since -- it is relayed
+  \cup (IF XValidated /\ XValid /\ MinerOn /\ follows /\ net.pc = "done" /\ X \in miner.snap /\ ~O.x_bcast
+        THEN {"C09:accepted_block_that_was_the_new_head_is_not_relayed"} ELSE {})
   \cup (IF MinerOn /\ ~O.b_on_disk THEN {IF follows /\ ~ModelOut.b_on_disk THEN "C12:found_block_dropped_from_the_write_buffer_by_a_concurrent_rejection"
                                          ELSE "C12:found_block_not_written_to_store"} ELSE {})
   \cup (IF MinerOn /\ ~O.b_bcast THEN {"C12:found_block_not_broadcast"} ELSE {})
   \cup (IF Tr.errors # << >> THEN {"C12:handling_a_found_block_or_a_delivery_raised_under_a_two_thread_schedule"} ELSE {})
 TInit == /\ tid \in 1..Len(Traces) /\ l = 1 /\ done = FALSE /\ follows = TRUE
-         /\ served = {G} /\ lastValid = {G} /\ buffer = << >> /\ disk = {G} /\ bcast = {}
+         /\ served = {G} /\ lastValid = {G} /\ buffer = << >> /\ disk = {G} /\ bcast = {} /\ sqlerr = FALSE
          /\ net = [pc |-> "N1", prior |-> {}, changed |-> {}, tmp |-> {}, quiet |-> FALSE] /\ miner = [pc |-> IF MinerOn THEN "M1" ELSE "done", snap |-> {}]
 TNext ==
   /\ ~done /\ UNCHANGED tid
   /\ IF l > Len(Tr.hist) \/ ~follows
-     THEN /\ done' = TRUE /\ UNCHANGED << served, lastValid, buffer, disk, bcast, net, miner, l, follows >>
+     THEN /\ done' = TRUE /\ UNCHANGED << served, lastValid, buffer, disk, bcast, net, miner, sqlerr, l, follows >>
           /\ \A c \in Clauses : Emit(c)
           /\ (Clauses = {} /\ Tr.feasible /\ ~Agrees =>
                 PrintT(ToJson(<< "DRIFT", Tr.id, l, "outcome of a two-thread schedule differs from Handover (no property clause involved)" >>)))
@@ -39,7 +43,7 @@ TNext ==
           IF Tr.feasible /\ ((e.t = "net" /\ net.pc = e.a /\ ENABLED NetStep) \/ (e.t = "miner" /\ miner.pc = e.a /\ ENABLED MinerStep))
           THEN /\ (IF e.t = "net" THEN NetStep ELSE MinerStep) /\ l' = l + 1 /\ UNCHANGED << done, follows >>
                /\ (e.a = "N8" => ((X \in bcast') = O.x_bcast))
-          ELSE /\ follows' = FALSE /\ UNCHANGED << served, lastValid, buffer, disk, bcast, net, miner, l, done >>
+          ELSE /\ follows' = FALSE /\ UNCHANGED << served, lastValid, buffer, disk, bcast, net, miner, sqlerr, l, done >>
                /\ (Tr.feasible => PrintT(ToJson(<< "DRIFT", Tr.id, l, "the schedule the code followed is not a behaviour of Handover at " \o e.t \o " " \o e.a >>)))
 TSpec == TInit /\ [][TNext]_tv
 =============================================================================
